@@ -170,7 +170,12 @@ def make_registry():  # noqa: F811  (final definition)
     _REG_HOLDER["reg"] = reg
     for c in CONTRACTS:
         reg.add_contract(c)
+    reg.contracts[C_CPA.func] = C_CPA
     reg.inline.add(f"{PU}:SimpleBatcher.rng")
+    import torch
+
+    reg.models[torch.Generator] = lambda interp, device=None: _TorchGen(device)
+    reg.ctor_models[torch.Generator] = lambda interp, device=None: _TorchGen(device)
     return reg
 
 
@@ -277,6 +282,237 @@ C_VALLEN = Contract(
     ensures=vlen_ensures,
     inline=[f"{PU}:SimpleBatcher.has_validation"],
 )
+
+
+# --------------------------------------------------------------------------------------------
+# SimpleBatcher.__init__ : train / validation split
+# --------------------------------------------------------------------------------------------
+
+
+def init_setup(ctx):
+    o = Obj(SB, {})
+    num = ctx.fresh("num", "int")
+    bs = opt_int(ctx, "batch_size")
+    shuffle = ctx.fresh("shuffle", "bool")
+    rng = _REG_HOLDER["reg"].SymGenerator("rng_arg", seed=ctx.fresh("seed", "int"))
+    val_ratio = ctx.fresh("val_ratio", "real")
+    mode = "random" if ctx.branch(ctx.fresh("mode_is_random", "bool").t) else "grid"
+    return NS(self=o, num=num, batch_size=bs, shuffle=shuffle, rng=rng, val_ratio=val_ratio, val_mode=mode,
+              train_indices=None, val_indices=None)
+
+
+def as_index(a):
+    """Index-array view with membership ghosts of a SymArr or of a concrete numpy array."""
+    import numpy as np
+
+    if isinstance(a, SymArr) and hasattr(a, "mem"):
+        return a
+    if isinstance(a, np.ndarray):
+        vals = [int(x) for x in a.tolist()]
+        r = V.from_list(vals, kind="int", pylist=False)
+        r.mem = lambda v: OR(*[lift(v) == e for e in vals]) if vals else z3.BoolVal(False)
+
+        def inv(v):
+            t = z3.IntVal(-1)
+            for j in range(len(vals) - 1, -1, -1):
+                t = z3.If(lift(v) == vals[j], j, t)
+            return t
+
+        r.inv = inv
+        return r
+    raise V.OutOfSubset(f"index array of type {type(a).__name__} without membership ghosts")
+
+
+def init_ensures(s):
+    o = s.self
+    tr, va = as_index(o.fields["train_indices"]), as_index(o.fields["val_indices"])
+    num = lift(s.num)
+    v, i = I("v"), I("i")
+    inr = AND(v >= 0, v < num)
+    out = [
+        ("train-and-val-cover-all-patterns", forall(v, implies(inr, OR(tr.mem(v), va.mem(v))))),
+        ("train-and-val-are-disjoint", forall(v, NOT(AND(tr.mem(v), va.mem(v))))),
+        ("only-patterns-0..num-1", forall(v, implies(OR(tr.mem(v), va.mem(v)), inr))),
+        ("train-has-no-duplicates", forall(i, implies(AND(i >= 0, i < lift(tr.sym_len())), AND(tr.mem(lift(tr.fn(i))), tr.inv(lift(tr.fn(i))) == i)))),
+        ("val-has-no-duplicates", forall(i, implies(AND(i >= 0, i < lift(va.sym_len())), AND(va.mem(lift(va.fn(i))), va.inv(lift(va.fn(i))) == i)))),
+        ("batch_size-defaults-to-num", lift(o.fields["batch_size"]) == (num if s.batch_size is None else lift(s.batch_size))),
+        ("ratio-0-means-no-validation", implies(OR(lift(s.val_ratio) <= 0, lift(s.val_ratio) >= 1), lift(va.sym_len()) == 0)),
+    ]
+    return out
+
+
+C_INIT = Contract(
+    f"{PU}:SimpleBatcher.__init__", setup=init_setup,
+    requires=lambda s: [("num>=0", s.num >= 0)],
+    ensures=init_ensures,
+    inline=[f"{PU}:SimpleBatcher.rng"],
+)
+
+# --------------------------------------------------------------------------------------------
+# seeds: SimpleBatcher.rng setter, RNGMixin.rng setter, _reset_rng, reset_recon
+# --------------------------------------------------------------------------------------------
+RNGM = "quantem.core.utils.rng"
+RM = resolve(f"{RNGM}:RNGMixin")
+
+
+def rngset_setup(ctx):
+    o = Obj(SB, {})
+    kind = "none" if ctx.branch(ctx.fresh("rng_is_none", "bool").t) else ("seed" if ctx.branch(ctx.fresh("rng_is_seed", "bool").t) else "gen")
+    if kind == "none":
+        rng = None
+    elif kind == "seed":
+        rng = ctx.fresh("seed", "int")
+        ctx.assume(rng.t >= 0)
+    else:
+        rng = _REG_HOLDER["reg"].SymGenerator("given", seed=ctx.fresh("gseed", "int"))
+    return NS(self=o, rng=rng, kind=kind)
+
+
+def rngset_ensures(s):
+    g = s.self.fields.get("_rng")
+    G = _REG_HOLDER["reg"].SymGenerator
+    out = [("stores-a-generator", isinstance(g, G))]
+    if s.kind == "seed":
+        out.append(("generator-is-default_rng(seed)", AND(g.seed is not None and lift(g.seed) == lift(s.rng), g.draws == 0)))
+    if s.kind == "gen":
+        out.append(("given-generator-kept", g is s.rng))
+    return out
+
+
+C_RNGSET = Contract(f"{PU}:SimpleBatcher.rng.fset", setup=rngset_setup, ensures=rngset_ensures)
+
+
+class _TorchGen:
+    _pyvc_value = True
+
+    def __init__(self, device=None):
+        self.device = device
+        self.seed = None
+
+    def manual_seed(self, s):
+        self.seed = s
+        return self
+
+    def initial_seed(self):
+        return self.seed
+
+
+def mixin_obj(ctx, seeded=None):
+    G = _REG_HOLDER["reg"].SymGenerator
+    o = Obj(RM, {"_device": "cpu"})
+    return o
+
+
+def mset_setup(ctx):
+    s = rngset_setup(ctx)
+    s.self = Obj(RM, {"_device": "cpu"})
+    return s
+
+
+def mset_ensures(s):
+    o = s.self
+    g, tg, seed = o.fields.get("_rng"), o.fields.get("_rng_torch"), o.fields.get("_rng_seed", "missing")
+    G = _REG_HOLDER["reg"].SymGenerator
+    out = [("stores-a-generator", isinstance(g, G)), ("stores-a-torch-generator", isinstance(tg, _TorchGen))]
+    if s.kind == "none":
+        out += [("seed-is-None", seed is None), ("torch-generator-unseeded", tg.seed is None)]
+    if s.kind == "seed":
+        out += [("seed-recorded", seed is not None and lift(seed) == lift(s.rng)),
+                ("generator-is-default_rng(seed)", AND(g.seed is not None and lift(g.seed) == lift(s.rng), g.draws == 0)),
+                ("torch-generator-seeded-with-seed-mod-2^32", tg.seed is not None and lift(tg.seed) == lift(s.rng) % (2 ** 32))]
+    if s.kind == "gen":
+        out += [("given-generator-kept", g is s.rng), ("seed-is-the-generator's-entropy", seed is not None and lift(seed) == lift(s.rng.seed))]
+    return out
+
+
+C_MSET = Contract(f"{RNGM}:RNGMixin.rng.fset", setup=mset_setup, ensures=mset_ensures, inline=[f"{RNGM}:RNGMixin._update_torch_rng"])
+
+
+def reset_setup(ctx):
+    G = _REG_HOLDER["reg"].SymGenerator
+    o = Obj(RM, {"_device": "cpu"})
+    has_seed = not ctx.branch(ctx.fresh("seed_is_none", "bool").t)
+    if has_seed:
+        seed = ctx.fresh("seed", "int")
+        ctx.assume(seed.t >= 0)
+        o.fields["_rng_seed"] = seed
+    else:
+        o.fields["_rng_seed"] = None
+    used = G("used", seed=o.fields["_rng_seed"])
+    used.draws = 3  # an already advanced generator
+    o.fields["_rng"] = used
+    o.fields["_rng_torch"] = _TorchGen("cpu")
+    return NS(self=o, has_seed=has_seed, used=used)
+
+
+def reset_snapshot(s):
+    return NS(rng=s.self.fields.get("_rng"), seed=s.self.fields.get("_rng_seed"))
+
+
+def reset_ensures(s):
+    o = s.self
+    g, tg, seed = o.fields["_rng"], o.fields["_rng_torch"], o.fields["_rng_seed"]
+    if s.old.seed is None:
+        return [("unseeded-generator-left-alone", g is s.old.rng)]
+    seed = s.old.seed
+    return [("generator-recreated-from-the-stored-seed", AND(g is not s.old.rng, g.seed is not None and lift(g.seed) == lift(seed), g.draws == 0)),
+            ("torch-generator-recreated-from-the-stored-seed", tg.seed is not None and lift(tg.seed) == lift(seed) % (2 ** 32)),
+            ("seed-unchanged", lift(o.fields["_rng_seed"]) == lift(seed))]
+
+
+def reset_modifies(ctx, s):
+    o = s.self
+    G = _REG_HOLDER["reg"].SymGenerator
+    seed = o.fields.get("_rng_seed")
+    if seed is not None:
+        o.fields["_rng"] = G("reset", seed=seed)
+        t = _TorchGen("cpu")
+        t.seed = S(seed) % (2 ** 32)
+        o.fields["_rng_torch"] = t
+
+
+C_RESET = Contract(f"{RNGM}:RNGMixin._reset_rng", setup=reset_setup, ensures=reset_ensures, snapshot=reset_snapshot, modifies=reset_modifies,
+                   inline=[f"{RNGM}:RNGMixin.rng", f"{RNGM}:RNGMixin._update_torch_rng"])
+
+PB = "quantem.diffractive_imaging.ptychography_base"
+PBC = resolve(f"{PB}:PtychographyBase")
+
+
+class Opaque:
+    """A collaborator whose behaviour is outside this contract: every attribute is a no-op callable / opaque value.
+    ASSUMED FRAME: such calls do not rebind the RNG fields of the reconstruction object (listed in TRUSTED)."""
+
+    _pyvc_value = True
+
+    def __init__(self, name):
+        self._name = name
+
+    def __getattr__(self, k):
+        if k.startswith("__"):
+            raise AttributeError(k)
+        return Opaque(f"{self._name}.{k}")
+
+    def __call__(self, *a, **k):
+        return None
+
+
+def rr_setup(ctx):
+    s = reset_setup(ctx)
+    o = Obj(PBC, dict(s.self.fields))
+    o.fields.update(_obj_model=Opaque("obj_model"), _probe_model=Opaque("probe_model"), _dset=Opaque("dset"))
+    s.self = o
+    return s
+
+
+def rr_ensures(s):
+    o = s.self
+    return reset_ensures(s) + [("loss-history-cleared", AND(o.fields["_iter_losses"] == [], o.fields["_iter_val_losses"] == []))]
+
+
+C_RESETRECON = Contract(f"{PB}:PtychographyBase.reset_recon", setup=rr_setup, ensures=rr_ensures, snapshot=reset_snapshot,
+                        inline=[f"{PB}:PtychographyBase.obj_model", f"{PB}:PtychographyBase.probe_model", f"{PB}:PtychographyBase.dset"])
+C_CPA = Contract(f"{PB}:PtychographyBase.compute_propagator_arrays", setup=lambda ctx: NS(self=Obj(PBC, {})),
+                 note="assumed frame: does not touch the RNG fields (not verified)")
 
 
 # --------------------------------------------------------------------------------------------
@@ -398,7 +634,59 @@ for _c in (C_SUBDIVIDE, C_GENERATE):
 for _c in (C_ITER, C_LEN, C_ITERVAL, C_VALLEN):
     _c.concretize, _c.rt, _c.rt_family = conc_batcher, rt_batcher, fam_batcher
 
-CONTRACTS = [C_SUBDIVIDE, C_GENERATE, C_ITER, C_LEN, C_ITERVAL, C_VALLEN]
+
+def conc_init(ev):
+    num = ev("num")
+    if num is None or num > 3000:
+        return None
+    bs = None if ev("batch_size_is_none", False) else ev("batch_size", 1)
+    vr = ev("val_ratio", 0.0)
+    return dict(num=num, batch_size=bs if bs is None or bs >= 1 else 1, shuffle=bool(ev("shuffle", False)), val_ratio=float(vr),
+                val_mode="random" if ev("mode_is_random", False) else "grid", seed=max(0, ev("seed", 0) or 0))
+
+
+def rt_reset(inp):
+    """Seeded determinism at the RNG level: after _reset_rng / reset_recon's first step the generators restart from the stored seed."""
+    import numpy as np
+    import torch
+    from quantem.core.utils.rng import RNGMixin
+
+    seed = inp["seed"]
+    problems = []
+    m = RNGMixin(rng=seed)
+    first = (m.rng.permutation(20).tolist(), torch.rand(3, generator=m._rng_torch).tolist())
+    m.rng.permutation(7)
+    m._reset_rng()
+    again = (m.rng.permutation(20).tolist(), torch.rand(3, generator=m._rng_torch).tolist())
+    if seed is not None and first != again:
+        problems.append(f"seed={seed}: draws after _reset_rng differ from the first draws")
+    fresh = RNGMixin(rng=seed)
+    if seed is not None and fresh.rng.permutation(20).tolist() != first[0]:
+        problems.append(f"seed={seed}: two objects built from the same seed differ")
+    g = np.random.default_rng(seed if seed is not None else 5)
+    m2 = RNGMixin(rng=g)
+    a = m2.rng.permutation(11).tolist()
+    m2._reset_rng()
+    if m2.rng.permutation(11).tolist() != a:
+        problems.append("generator-constructed mixin does not restart from the generator's entropy")
+    return dict(violated=bool(problems), observed="; ".join(problems) or "ok", expected="identical draws after reset for every seed incl. 0")
+
+
+def fam_reset():
+    for seed in (0, 1, 2, 7, 42, 2 ** 32 + 5, 2 ** 40 + 1, None):
+        yield dict(seed=seed)
+
+
+def conc_reset(ev):
+    sd = ev("seed")
+    return None if sd is None else dict(seed=max(0, sd))
+
+
+C_INIT.concretize, C_INIT.rt, C_INIT.rt_family = conc_init, rt_batcher, fam_batcher
+for _c in (C_RNGSET, C_MSET, C_RESET, C_RESETRECON):
+    _c.concretize, _c.rt, _c.rt_family = conc_reset, rt_reset, fam_reset
+
+CONTRACTS = [C_SUBDIVIDE, C_GENERATE, C_ITER, C_LEN, C_ITERVAL, C_VALLEN, C_INIT, C_RNGSET, C_MSET, C_RESET, C_RESETRECON]
 
 # --------------------------------------------------------------------------------------------
 # property-level lemmas
@@ -439,12 +727,15 @@ TRUSTED = [
     "numpy Generator.permutation(x) = x composed with a bijection of [0,len)",
     "numpy setdiff1d(a,b) = sorted unique elements of a not in b",
     "T1 telescoping: sum_k (P(k+1)-P(k)) = P(n)-P(0)",
+    "np.random.default_rng(s) / torch.Generator().manual_seed(s) are functions of s (identical draw sequences for identical seeds)",
+    "ASSUMED FRAME: obj_model.reset / probe_model.reset / dset.reset / compute_propagator_arrays do not rebind the RNG fields (opaque collaborators in reset_recon)",
     "pyvc engine (AST interpreter, slice/index semantics), z3, cvc5",
 ]
 ASSUMPTIONS = ["A1 floats are reals (len/ceil(n/B) exact)", "A2 fixed-width ints are mathematical", "A6 numpy contracts"]
 EXPLANATION = "VCs generated from the real source of SimpleBatcher / subdivide_batches / generate_batches, discharged by z3/cvc5"
 BOUNDED = [
     Bounded.from_rt("subdivide/generate_batches small inputs", rt_subdivide, fam_subdivide, "num_items<=13, num_batches/max_batch<=14"),
+    Bounded.from_rt("RNG reset restarts the generators from the stored seed", rt_reset, fam_reset, "8 seeds incl. 0 and > 2^32, None"),
     Bounded.from_rt("SimpleBatcher small configurations", rt_batcher, fam_batcher, "num<=17, batch_size<=20, 9 split settings, 2 epochs"),
 ]
 REPLAY = {}
